@@ -45,16 +45,25 @@ STIFF_SYSTEMS = [
 ]
 
 
-def gen_stiff_call(rng):
+def gen_stiff_call(rng, variant=None):
     """a call with the stiffness test ENABLED (PyGSL stand-in) and a stimuli block that names a derivative, or a target twice"""
     ind = json.loads(json.dumps(rng.choice(STIFF_SYSTEMS)))
     names = [d["expression"].split("=")[0].strip() for d in ind["dynamics"]]
     base = names[0].replace("'", "")
     targets = [[base + "'", base, base + "'"], [base + "'"], [base, base]][rng.randrange(3)] if names[0].count("'") == 2 else [[base, base], [base]][rng.randrange(2)]
-    ind["stimuli"] = [{"type": "regular", "rate": "200.", "variables": list(targets)}]
-    if rng.random() < 0.5:
-        ind["stimuli"].append({"type": "list", "list": "3E-3 7E-3", "variables": [targets[0]]})
-    ind["options"] = {"sim_time": "0.02", "max_step_size": "0.005"}
+    if (variant is None and rng.random() < 0.5) or (variant is not None and variant % 3 == 2):
+        ind["stimuli"] = [{"type": "regular", "rate": "200.", "variables": list(targets)}]
+        if rng.random() < 0.5:
+            ind["stimuli"].append({"type": "list", "list": "3E-3 7E-3", "variables": [targets[0]]})
+        ind["options"] = {"sim_time": "0.02", "max_step_size": "0.005"}
+    else:
+        # a sparse stimulus and an options block that is absent or names only some of the stiffness-test options: the others take their
+        # documented defaults (sim_time 100E-3, max_step_size 999)
+        ind["stimuli"] = [{"type": "list", "list": "3E-3 7E-3", "variables": list(targets)}]
+        menu = [None, {"max_step_size": "0.05"}, {"sim_time": "0.2"}, {"integration_accuracy_abs": "1E-8"}, {"output_timestep_symbol": "hh"}]
+        opts = rng.choice(menu) if variant is None else menu[(variant // 3) % len(menu)] if variant % 3 == 1 else None
+        if opts is not None:
+            ind["options"] = opts
     return {"indict": ind, "flags": {}, "kind": "stiffness-checked"}
 
 
@@ -165,7 +174,7 @@ def run(ctx, driver):
             probe = {"indict": {"dynamics": dyn}, "flags": {"disable_stiffness_check": True}, "kind": "option-named"}
         if i % 8 == 6:
             # a stiffness-checked call (stand-in for PyGSL) with a stimuli block: as a member of the history or as the probe
-            sc = gen_stiff_call(rng)
+            sc = gen_stiff_call(rng, variant=i // 8)
             if rng.random() < 0.5:
                 hist.insert(rng.randrange(len(hist) + 1), sc)
             else:
@@ -221,6 +230,18 @@ def run(ctx, driver):
         if len(set(vals)) > 1:
             ctx.fail("result-depends-on-hash-seed", {"calls": case["calls"][-1:]}, {"signature": {"site": "PYTHONHASHSEED"}})
         for c, h in zip(case["calls"], hist):
+            sr = h.get("stiffness_run")
+            if sr and c["kind"] == "stiffness-checked":
+                ctx.count("stiffness_run_observed")
+                d = tb._DEFAULTS()
+                o = c["indict"].get("options", {})
+                want_T = float(o.get("sim_time", d["sim_time"]))
+                want_h = float(o.get("max_step_size", d["max_step_size"]))
+                if abs(sr["t_end"] - want_T) > 1e-9 * max(1.0, want_T) or sr["h_max"] > want_h * (1 + 1e-12):
+                    ctx.fail("unspecified-option-does-not-take-documented-default", {"calls": [c]},
+                             {"options_given": o, "documented_defaults": {"sim_time": d["sim_time"], "max_step_size": d["max_step_size"]},
+                              "stiffness_test_simulated_to": sr["t_end"], "largest_step_requested": sr["h_max"],
+                              "signature": {"site": "stiffness-test options", "options_block": "absent" if "options" not in c["indict"] else "partial"}})
             if not h["input_unmodified"]:
                 ctx.fail("input-dictionary-modified", {"calls": [c]}, {"signature": {"site": "indict"}})
                 break
